@@ -47,60 +47,7 @@ Proof.
   rewrite span_app by (first [exact AD | reflexivity]). rewrite NE. reflexivity.
 Qed.
 
-(* ---- trimming and padding the fraction ---- *)
-Lemma trim0r_digits x : all_chars is_digit x = true -> all_chars is_digit (trim0r x) = true.
-Proof.
-  induction x as [|c x IH]; intros H; [reflexivity|].
-  cbn in H. apply andb_true_iff in H as [Hc Hx]. specialize (IH Hx).
-  cbn [trim0r]. destruct (trim0r x) as [|c' x'] eqn:E.
-  - destruct (Ascii.eqb c "0"); cbn; [reflexivity|]. rewrite Hc. reflexivity.
-  - cbn [all_chars]. rewrite Hc. exact IH.
-Qed.
-
-Lemma trim0r_length x : (String.length (trim0r x) <= String.length x)%nat.
-Proof.
-  induction x as [|c x IH]; cbn [trim0r]; [cbn; lia|].
-  destruct (trim0r x) as [|c' x'] eqn:E.
-  - destruct (Ascii.eqb c "0"); cbn; lia.
-  - cbn [String.length] in *. lia.
-Qed.
-
-Lemma trim0r_pad_ex x :
-  exists k, trim0r x +++ srepeat "0" k = x /\ (k + String.length (trim0r x) = String.length x)%nat.
-Proof.
-  induction x as [|c x IH]; [exists 0%nat; split; reflexivity|].
-  destruct IH as (k & E & L).
-  cbn [trim0r]. destruct (trim0r x) as [|c' x'] eqn:T.
-  - cbn [String.append String.length] in E, L.
-    destruct (Ascii.eqb c "0") eqn:C.
-    + apply Ascii.eqb_eq in C. subst c. exists (S k). cbn [String.append srepeat String.length].
-      rewrite E. split; [reflexivity|lia].
-    + exists k. cbn [String.append String.length]. rewrite E. split; [reflexivity|lia].
-  - exists k. cbn [String.append String.length] in *. rewrite E. split; [reflexivity|lia].
-Qed.
-
-Lemma trim0r_pad x :
-  trim0r x +++ srepeat "0" (String.length x - String.length (trim0r x)) = x.
-Proof.
-  destruct (trim0r_pad_ex x) as (k & E & L).
-  replace (String.length x - String.length (trim0r x))%nat with k by lia. exact E.
-Qed.
-
-Lemma trim0r_dot x : trim0r (String "." x) = String "." (trim0r x).
-Proof. cbn [trim0r]. destruct (trim0r x); reflexivity. Qed.
-
-Lemma take_all n x : (String.length x <= n)%nat -> take n x = x.
-Proof.
-  revert x; induction n as [|n IH]; intros x H.
-  - destruct x; [reflexivity|cbn in H; lia].
-  - destruct x as [|c x]; [reflexivity|]. cbn in *. rewrite IH by lia. reflexivity.
-Qed.
-
-Lemma dval_zeros k : dval (srepeat "0" k) = 0.
-Proof.
-  unfold dval. induction k as [|k IH]; cbn; [reflexivity|]. exact IH.
-Qed.
-
+(* ---- the fraction ---- *)
 Lemma frac_nonempty ns : 0 < ns < 10 ^ 9 -> nonempty (trim0r (fixw 9 ns)) = true.
 Proof.
   intros H. destruct (trim0r (fixw 9 ns)) eqn:E; [|reflexivity]. exfalso.
